@@ -198,10 +198,26 @@ def cases(seed, tier):
         picked = groups if tier == 'thorough' else groups[:1] + (rng.sample(groups[1:], 1) if len(groups) > 1 else [])
         for conn, midx in picked:
             for pv in (0, 1, 2, 3, 4, 5, 6, 7, 8, 9, 15, 16, 17, 255, 256, 65537, (1 << 64) - 1, 1 << 64, (1 << 2048) + 1, (1 << 16384) + 1, (1 << 32768) + 1, (1 << 131072) + 1):
-                for gv in sorted({0, 1, 2, max(pv - 1, 0), pv, pv + 1}) if (tier == 'thorough' or pv < 20) else (2,):
+                gvs = sorted({0, 1, 2, max(pv - 1, 0), pv, pv + 1}) if (tier == 'thorough' or pv < 20) else (0, 2)
+                if pv in (5, 7, 17, 65537):
+                    gvs = list(gvs) + [1 << 20000]       # a generator of thousands of digits beside a small modulus
+                for gv in gvs:
                     grp = wire.frame(bytes([wire.MSG_GEX_GROUP]) + wire.mpint(pv) + wire.mpint(gv))
                     yield {'arch': arch, 'faults': [{'conn': conn, 'msg': midx, 'kind': 'replace', 'hex': grp.hex(), 'field': 'group_values', 'mut': 'p=%d g=%d' % (pv if pv < 1 << 20 else pv.bit_length(), gv if gv < 1 << 20 else gv.bit_length())}],
                            'opts': ['-n'], 'timeout': 2, 'net': {'rtt_us': 200, 'seg': {'mode': 'msg'}}, 'pseed': 1}
+    # identification lines built to stress whatever parses them (long runs of one character class, nested repetition): parsing
+    # time is the tool's own, no timeout covers it
+    stress = ['SSH-2.0-FooSSH_1.0 ' + 'A' * 64, 'SSH-2.0-FooSSH_1.0 ' + 'A' * 40 + ' tail', 'SSH-2.0-' + 'a' * 5000, 'SSH-2.0-OpenSSH_' + '9' * 3000, 'SSH-2.0-OpenSSH_' + '1.' * 1500 + '1',
+              'SSH-2.0-dropbear_' + '2020.' * 400 + '1', 'SSH-2.0-x ' + ' ' * 3000 + 'y', 'SSH-2.0-libssh-' + '0.' * 1000 + '1', 'SSH-2.0-' + '-' * 4000, 'SSH-2.0-Foo_1.0 ' + 'word ' * 800,
+              'SSH-2.0-' + '(' * 3000, 'SSH-2.0-OpenSSH_7.4p' + '1' * 3000, 'SSH-2.0-Foo_1.0 ' + 'a1_' * 30 + ': x', 'SSH-1.99-' + 'A_' * 2000]
+    for arch in ('ed25519', 'client', 'mismatch_only'):
+        tr, _n, _ = transcript(arch)
+        b = next(((c, idx) for c, idx, tag, _d in tr if tag == 'banner'), None)
+        if b is None:
+            continue
+        for j, line in enumerate(stress if tier == 'thorough' or arch == 'ed25519' else stress[:3]):
+            yield {'arch': arch, 'stress': True, 'faults': [{'conn': b[0], 'msg': b[1], 'kind': 'replace', 'hex': (line.encode() + b'\r\n').hex(), 'field': 'banner_stress', 'mut': 'line %d' % j}],
+                   'opts': ['-n'], 'timeout': 2, 'net': {'rtt_us': 200, 'seg': {'mode': 'msg'}}, 'pseed': 1}
     # well-framed packets (right length fields, padding, SSH-1 checksum) whose payload ends early: the framing layer accepts them, the
     # message parsers have to cope
     import struct as _struct
@@ -366,9 +382,13 @@ def run_case(case, ctx):
     plan['knobs'] = dict(plan.get('knobs') or {})
     plan['knobs'].setdefault('max_vtime_s', 1200)
     plan['knobs'].setdefault('max_events', 400000)
-    rec = ctx.run(plan)
+    rec = ctx.run(plan, real_timeout=20.0 if case.get('stress') else 60.0, hang_is_outcome=True)
     if rec.get('harness_error'):
         return {'violations': [], 'keys': []}
+    if rec['outcome'] == 'REAL_TIME_EXCEEDED':
+        # typical invocations take 0.05 s of real time; this one computed for the whole allowance without making one simulated call
+        return {'violations': [viol('C09 %s: the tool did not return within %.0f s of real processor time (computing, no call into the simulated world)' % (case['arch'], rec['real_timeout_s']),
+                                    'faults=%r' % [dict(f, hex=f['hex'][:80]) if 'hex' in f else f for f in case['faults']])], 'keys': []}
     judge(case, rec, out)
     fired = rec.get('faults_fired', {})
     keys = []
